@@ -25,6 +25,7 @@ ASSUMPTIONS = ["calibration problems are pre-screened by the harness (COS prices
 REQUIRED_COUNTERS = ["default_calibrations", "parameter_calibrations", "repricing_checks", "input_untouched_checks", "history_rebuilds",
                      "constraint_probes"]
 MIN_NONTRIVIAL = {"quick": 40, "thorough": 500}
+THOROUGH_ROUNDS = 20      # the thorough tier runs the generators this many times (different seeds)
 SHARD_TIMEOUT = {"quick": 900, "thorough": 7200}
 FAMS = ["HEM", "MERTON", "VG", "CGMY"]
 
